@@ -289,6 +289,43 @@ def direct_calls(ctx, model, text, groups, known_spinfactors, style_seed):
             if got != want:
                 ctx.violate(f"direct-call:permutations-not-those-of-the-event-type-at-the-call:{lang}", f"{A.tree_str(tree)} for [{' '.join(now)}] ({step}): spin factors carry {sorted(got)}, one-to-one assignments are {sorted(want)}", w)
                 break
+        else:
+            wave_assigned_on_the_line_object(ctx, cls, lang, model, groups, k, line, final, style_seed, wit)
+
+
+def wave_assigned_on_the_line_object(ctx, cls, lang, model, groups, k, line, final, style_seed, wit):
+    """The caller assigns another orbital wave to a line object that has already been emitted once (`line.spinfactor = "D"`) and emits it again: the fragment is
+    the one a freshly read line with that wave written in the file gives."""
+    import copy  # noqa: PLC0415
+
+    flat = [(ln, t) for ln, ts in groups for t in ts]
+    ln, tree = flat[k]
+    a, b = tree.kids
+    if a.kids is None or b.kids is None or A.SPINS[a.name][0] != "V" or A.SPINS[b.name][0] != "V" or len(groups) != len(flat):
+        return          # only V V amplitudes carry a wave, and only when every written line is one amplitude (indices then agree)
+    new = "D" if tree.spin != "D" else "P"
+    m2 = copy.deepcopy(model)
+    idx = [i for i, x in enumerate(model["lines"]) if x is ln]
+    if not idx:
+        return
+    m2["lines"][idx[0]]["node"].spin = new
+    text2 = A.render(m2, random.Random(style_seed))
+    w = {**wit, "amplitude_index": k, "wave_assigned": new, "twin_text": text2}
+    ok, res = ctx.guard("read:" + lang, w, lambda: cls.read_ampgen(text=text2))
+    if not ok or len(res[0]) != len(flat):
+        return
+    ok, want = ctx.guard("to_goofit:" + lang, w, res[0][k].to_goofit, final)
+    if not ok:
+        return
+    ctx.hit("wave-assigned-on-a-line-object-already-emitted")
+    line.spinfactor = new
+    ok, got = ctx.guard("to_goofit:" + lang, w, line.to_goofit, final)
+    contracts.drain()
+    if ok and got != want:
+        import difflib  # noqa: PLC0415
+
+        diff = [z for z in difflib.unified_diff(want.splitlines(), got.splitlines(), lineterm="", n=0)][:6]
+        ctx.violate(f"direct-call:fragment-does-not-follow-the-wave-assigned-to-the-line:{lang}", " | ".join(diff), w)
 
 
 def compare(ctx, model, m, oracles, wit, lang):
